@@ -32,11 +32,21 @@ def method_stubs(P, cls_qual, names, extra=None):
             ps = [p.arg for p in a.posonlyargs + a.args if p.arg != 'self']
             for p, d in zip(ps[len(ps) - len(a.defaults):], a.defaults):
                 defaults[p] = interp.Machine({}, None, m.resolver).ev(d)
-            for p, v in zip(params, args):
+            va = a.vararg.arg if a.vararg else None
+            named = ps + [x.arg for x in a.kwonlyargs]
+            for p, v in zip(named, args):
                 env[p] = v
+            if va is not None:
+                env[va] = tuple(args[len(named):])
+            elif len(args) > len(ps):
+                raise interp.Raised('TypeError')
+            if a.kwarg is not None:
+                env[a.kwarg.arg] = {k: v for k, v in kw.items()
+                                    if k not in named}
             for k, v in kw.items():
-                env[k] = v
-            for p in params:
+                if k in named:
+                    env[k] = v
+            for p in named:
                 if p not in env:
                     if p in defaults:
                         env[p] = defaults[p]
@@ -992,6 +1002,10 @@ def dddmp_load_model(P, R):
         ({'a': 0, 'b': 1, 'c': 2}, 3,
          {1: (4, None, None), 2: (2, -1, 1), 3: (1, 2, 1),
           4: (0, -3, 2)}, {4, 2}),
+        # constant roots
+        ({'a': 0, 'b': 1, 'c': 2}, 3,
+         {1: (4, None, None), 2: (2, -1, 1)}, {1, -2}),
+        ({'a': 0, 'b': 1}, 2, {1: (3, None, None)}, {-1}),
     ]
     problems = dict()
     n = 0
@@ -2634,3 +2648,352 @@ def r_operations(P, R):
     if n is not None:
         R.floor(f'R-OPTAB calls of the operations model ({R.prop})', n, 30)
 r_operations.NAME = 'R-OPTAB(operations model)'
+
+
+def declarations_model(P, R):
+    """`BDD(levels)` and `dd._copy.copy_vars(source, target)` interpreted
+    for level tables whose listing order is not the level order (as
+    after a reordering).  C14 / C11 / C12: the new manager has exactly
+    the given variables at the given levels, inverse tables, and the
+    terminal below all of them; `copy_vars` declares every variable of
+    the source at the same level in the target, or refuses when the
+    target has the name at another level or another name at that
+    level - it never returns with the two managers disagreeing."""
+    init = P.func('dd.bdd.BDD.__init__')
+    cv = P.func('dd._copy.copy_vars')
+    stubs = ClassStubs(P, 'dd.bdd.BDD', extra={
+        '_request_reordering': lambda m, c, a, k: None})
+    resolver = interp.ModuleEnv(P, 'dd.bdd', stubs)
+    problems = dict()
+    n = 0
+    tables = [{}, {'x': 0}, {'x': 0, 'y': 1, 'z': 2},
+              {'x': 0, 'y': 2, 'z': 1}, {'z': 2, 'x': 0, 'y': 1},
+              {'b': 1, 'a': 0}]
+    try:
+        prm = [p for p in init.params if p != 'self']
+        for levels in tables:
+            n += 1
+            env = {'self': interp.Sym('self'), 'sys.maxsize': 10 ** 9,
+                   prm[0]: dict(levels)}
+            out, m = interp.run_function(init.node, env, stubs, resolver)
+            what = f'BDD({levels})'
+            if out[0] == 'raise':
+                problems.setdefault((init, 'refuses-valid'), (
+                    f'{what}: raises {out[1]}'))
+                continue
+            v = m.env.get('self.vars')
+            l2v = m.env.get('self._level_to_var')
+            succ = m.env.get('self._succ')
+            if v != levels:
+                problems.setdefault((init, 'vars'), (
+                    f'{what}: the manager has the levels {v}'))
+            elif l2v != {k: x for x, k in levels.items()}:
+                problems.setdefault((init, 'unpaired'), (
+                    f'{what}: _level_to_var = {l2v} is not the inverse '
+                    'of vars'))
+            elif succ != {1: (len(levels), None, None)} or \
+                    m.env.get('self._pred') != {
+                        (len(levels), None, None): 1}:
+                problems.setdefault((init, 'terminal'), (
+                    f'{what}: the terminal is {succ}, expected at level '
+                    f'{len(levels)} (below all variables)'))
+        # copy_vars: source object x target object
+        ps = list(cv.params)
+        sources = [{'x': 0, 'y': 1}, {'x': 0, 'y': 2, 'z': 1},
+                   {'z': 2, 'x': 0, 'y': 1}]
+        targets = [{}, {'x': 0}, {'x': 0, 'y': 1, 'z': 2}, {'y': 0},
+                   {'x': 1, 'q': 0}, {'x': 0, 'y': 2, 'z': 1}]
+        for sv in sources:
+            for tv in targets:
+                n += 1
+                src = _object_manager(_manager_state(sv, {}))
+                tgt = _object_manager(_manager_state(tv, {}))
+                env = {ps[0]: src, ps[1]: tgt}
+                out, m = interp.run_function(cv.node, env, stubs, resolver)
+                what = f'copy_vars from {sv} into a manager with {tv}'
+                compatible = all(
+                    tv.get(x, k) == k and all(
+                        y == x or kk != k for y, kk in tv.items())
+                    for x, k in sv.items())
+                got = tgt.attrs['vars']
+                agree = all(got.get(x) == k for x, k in sv.items())
+                if out[0] == 'raise':
+                    if compatible and sorted({**tv, **sv}.values()) == \
+                            list(range(len({**tv, **sv}))):
+                        problems.setdefault((cv, 'refuses-valid'), (
+                            f'{what}: raises {out[1]}'))
+                    continue
+                if not agree:
+                    problems.setdefault((cv, 'accepts-invalid'), (
+                        f'{what}: returns with the target at {got}: the '
+                        'two managers disagree on the level of a '
+                        'variable and no exception was raised'))
+    except interp.Unknown as e:
+        R.undecided('R-INVMAP', 'dd.bdd.BDD.__init__ / dd._copy.copy_vars',
+                    'declarations model', str(e))
+        return None
+    for (f, sub), msg in sorted(problems.items(),
+                                key=lambda kv: (kv[0][0].qualname,
+                                                kv[0][1])):
+        R.violation('R-INVMAP' if f is init else 'R-ACCEPT', sub,
+                    f.qualname, 'levels', msg, unit=f.unit.rel,
+                    line=f.lineno)
+    if not problems:
+        R.holds('R-INVMAP', 'dd.bdd.BDD.__init__ / dd._copy.copy_vars',
+                f'declarations model ({n} runs): a manager made from a '
+                'level table has those levels whatever the listing order; '
+                'copy_vars leaves the two managers agreeing or refuses')
+    return n
+
+
+def mdd_operations_model(P, R):
+    """`MDD.ite` and `MDD.apply` interpreted on a small multi-valued
+    diagram (x with three values above y with two, shared nodes,
+    complemented references) for every triple / pair of references and
+    every connective spelling, against the values over all six
+    assignments (C15: the operations are pointwise and the result is the
+    canonical reference of its function)."""
+    import itertools
+    ite = P.func('dd.mdd.MDD.ite')
+    app = P.func('dd.mdd.MDD.apply')
+    stubs = ClassStubs(P, 'dd.mdd.MDD')
+    resolver = interp.ModuleEnv(P, 'dd.mdd', stubs)
+    dvars = {'x': {'level': 0, 'len': 3}, 'y': {'level': 1, 'len': 2}}
+    succ = {1: (2, None), 2: (1, 1, -1), 3: (0, 2, 1, -2),
+            4: (0, 1, -1, -1), 5: (0, 2, -2, 1)}
+    ref = {u: 0 for u in succ}
+    for u, t in succ.items():
+        for x in t[1:]:
+            if x is not None:
+                ref[abs(x)] += 1
+    for u in (3, 4, 5):
+        ref[u] += 1
+    points = list(itertools.product(range(3), range(2)))
+
+    def value(table, u, pt):
+        neg = False
+        while abs(u) != 1:
+            if u < 0:
+                neg = not neg
+            t = table[abs(u)]
+            u = t[1 + pt[t[0]]]
+        return (u > 0) != neg
+
+    def tt(table, u):
+        return tuple(value(table, u, p) for p in points)
+
+    def manager():
+        return interp.Sym('mdd', {
+            'vars': copy.deepcopy(dvars), '_level_to_var': None,
+            '_succ': dict(succ),
+            '_pred': {t: u for u, t in succ.items()},
+            '_ref': dict(ref), '_max': 5, '_free': set(),
+            '_ite_table': dict(), 'max_nodes': 1000})
+    refs = [s * u for u in succ for s in (1, -1)]
+    base = {u: tt(succ, u) for u in refs}
+    problems = dict()
+    n = 0
+
+    def check(f, what, obj, out, want):
+        if out[0] != 'return' or not isinstance(out[1], int) or abs(
+                out[1]) not in obj.attrs['_succ']:
+            problems.setdefault((f, 'raises'), f'{what}: {out[0]} {out[1]}')
+            return
+        table = obj.attrs['_succ']
+        try:
+            got = tt(table, out[1])
+        except (KeyError, IndexError, TypeError):
+            got = None
+        if got != want:
+            problems.setdefault((f, 'wrong-function'), (
+                f'{what}: the result {out[1]} has the values {got} over '
+                f'(x, y) in {points}, expected {want} (nodes {table})'))
+            return
+        for u, t in table.items():
+            if u != 1 and (t[1] < 0 or len(set(t[1:])) == 1):
+                problems.setdefault((f, 'tables'), (
+                    f'{what}: node {u} = {t} is not in normal form'))
+                return
+        first = None
+        for u in table:
+            for s in (1, -1):
+                if first is None and tt(table, s * u) == want:
+                    first = s * u
+        if first != out[1]:
+            problems.setdefault((f, 'not-canonical'), (
+                f'{what}: the result {out[1]} and the reference {first} '
+                'denote the same function'))
+    try:
+        ps = [p for p in ite.params if p != 'self']
+        for g in refs:
+            for u in refs[::2] + [-2, -4]:
+                for v in refs[::2] + [-3]:
+                    n += 1
+                    obj = manager()
+                    out, _ = interp.run_function(
+                        ite.node, {'self': obj, ps[0]: g, ps[1]: u,
+                                   ps[2]: v}, stubs, resolver)
+                    want = tuple((b if a else c) for a, b, c in zip(
+                        base[g], base[u], base[v]))
+                    check(ite, f'MDD.ite({g}, {u}, {v})', obj, out, want)
+        pa_ = [p for p in app.params if p != 'self']
+        ops = {'and': lambda a, b: a and b,
+               'or': lambda a, b: a or b,
+               'xor': lambda a, b: a != b,
+               '=>': lambda a, b: (not a) or b,
+               '<=>': lambda a, b: a == b, '-': lambda a, b: a and not b}
+        for op, fn in ops.items():
+            for u in refs:
+                for v in refs[1:8]:
+                    n += 1
+                    obj = manager()
+                    out, _ = interp.run_function(
+                        app.node, {'self': obj, pa_[0]: op, pa_[1]: u,
+                                   pa_[2]: v, pa_[3]: None}, stubs,
+                        resolver)
+                    want = tuple(bool(fn(a, b)) for a, b in zip(
+                        base[u], base[v]))
+                    check(app, f'MDD.apply({op!r}, {u}, {v})', obj, out,
+                          want)
+    except interp.Unknown as e:
+        R.undecided('R-OPTAB', 'dd.mdd.MDD (operations)',
+                    'MDD operations model', str(e))
+        return None
+    for (f, sub), msg in sorted(problems.items(),
+                                key=lambda kv: (kv[0][0].qualname,
+                                                kv[0][1])):
+        R.violation('R-OPTAB', f'mdd-{sub}', f.qualname, f.name, msg,
+                    unit=f.unit.rel, line=f.lineno)
+    if not problems:
+        R.holds('R-OPTAB', 'dd.mdd.MDD (operations)',
+                f'MDD operations model ({n} calls): ite and apply are '
+                'pointwise over the six assignments and give the '
+                'canonical reference')
+    return n
+
+
+def autoref_apply_model(P, R):
+    """`dd.autoref.BDD.apply(op, u, v, w)` interpreted on handles with
+    several node numberings, the integer manager replaced by a recorder:
+    for every operator spelling the integer manager must be asked for
+    exactly `apply(op, u.node, v.node, w.node)` - the operands in their
+    positions whatever their node numbers - and its answer must come
+    back wrapped by this manager."""
+    f = P.func('dd.autoref.BDD.apply')
+    from . import optab
+    ctx = optab.Ctx(P)
+    vocab = ctx.vocabulary()
+    real = method_stubs(P, 'dd.autoref.BDD', ['__contains__'])[
+        '__contains__']
+    mgr = interp.Sym('integer manager')
+    problems = dict()
+    n = 0
+    from .. import minieval as me
+
+    def same_meaning(got, want, nodes):
+        """Does the call `got` = (op, x, y, z) of the integer manager
+        compute the function of `want` = (op, u, v, w)?  Operands are
+        told apart by their node numbers (same number = same function,
+        opposite sign = its complement)."""
+        syms = dict()
+        for x, sym in zip(nodes, (optab.U, optab.V, optab.W)):
+            syms.setdefault(abs(x), (sym, x > 0))
+
+        def val(x):
+            if not isinstance(x, int) or abs(x) not in syms:
+                return None
+            sym, pos = syms[abs(x)]
+            return sym if (x > 0) == pos else ('not', sym)
+
+        def meaning(call):
+            g = optab.ALIAS_GROUP.get(call[0])
+            ops = [val(x) for x in call[1:]]
+            if g is None or any(o is None for o in ops):
+                return None
+            if g in optab.QUANT:
+                return ('Q', g, tuple(me.show(o) for o in ops))
+            if len(ops) != optab.ARITY.get(g, 2):
+                return None
+            while len(ops) < 3:
+                ops.append(('const', None))
+            try:
+                return me.table(optab._subst(
+                    optab.CONNECTIVE[g],
+                    {'u': ops[0], 'v': ops[1], 'w': ops[2]}))
+            except me.Undecided:
+                return None
+        a, b = meaning(got), meaning(want)
+        return a is not None and a == b
+    resolver = interp.ModuleEnv(P, 'dd.autoref')
+    prm = [p for p in f.params if p != 'self']
+    try:
+        for op in sorted(vocab['all']):
+            arity = 1 if op in vocab['unary'] else (
+                3 if op in vocab['ternary'] else 2)
+            for nodes in ((2, 3, 5), (3, 2, 5), (5, 3, 2), (4, -4, 4),
+                          (-7, 6, -6)):
+                n += 1
+                wrapper = interp.Sym('autoref manager', {'_bdd': mgr})
+                calls = []
+
+                def inner(m, call, args, kw):
+                    calls.append(tuple(args))
+                    return 99
+
+                def contains(m, call, args, kw):
+                    if getattr(m, 'receiver', None) is mgr:
+                        return True
+                    return real(m, call, args, kw)
+
+                def wrap(m, call, args, kw):
+                    return interp.Sym('Function', {
+                        'node': args[0], 'bdd': wrapper, 'manager': mgr})
+                stubs = ClassStubs(P, 'dd.autoref.BDD', extra={
+                    'apply': inner, '__contains__': contains,
+                    '_wrap': wrap, 'Function': lambda m, c, a, k: wrap(
+                        m, c, a[:1], k)}, skip={'apply'})
+                hs = [interp.Sym('Function', {
+                    'node': x, 'bdd': wrapper, 'manager': mgr})
+                    for x in nodes[:arity]]
+                env = {'self': wrapper, prm[0]: op}
+                for p, h in zip(prm[1:], hs + [None] * 3):
+                    env[p] = h
+                out, _ = interp.run_function(f.node, env, stubs, resolver)
+                want = (op,) + tuple(nodes[:arity])
+                what = (f'apply({op!r}, ' + ', '.join(
+                    f'<node {x}>' for x in nodes[:arity]) + ')')
+                if out[0] == 'raise':
+                    problems.setdefault('raises', f'{what}: {out[1]}')
+                elif len(calls) != 1 or not same_meaning(
+                        calls[0], want, nodes):
+                    problems.setdefault('operands', (
+                        f'{what}: the integer manager is asked for '
+                        f'{calls}; that is not the function of '
+                        f'apply{want} (operands in other positions for an '
+                        'operator that is not symmetric, or another '
+                        'operator)'))
+                elif not (isinstance(out[1], interp.Sym) and out[1].attrs
+                          and out[1].attrs.get('node') == 99
+                          and out[1].attrs.get('bdd') is wrapper):
+                    problems.setdefault('result', (
+                        f'{what}: returns {out[1]!r}, not the answer of '
+                        'the integer manager wrapped by this manager'))
+    except interp.Unknown as e:
+        R.undecided('R-OPTAB', f.qualname, 'wrapper model', str(e))
+        return None
+    for sub, msg in sorted(problems.items()):
+        R.violation('R-OPTAB', f'wrapper-{sub}', f.qualname, 'apply', msg,
+                    unit=f.unit.rel, line=f.lineno)
+    if not problems:
+        R.holds('R-OPTAB', f.qualname,
+                f'wrapper model ({n} calls): every operator reaches the '
+                'integer manager with the operands in their positions, '
+                'whatever their node numbers')
+    return n
+
+
+def r_autoref_apply(P, R):
+    n = autoref_apply_model(P, R)
+    if n is not None:
+        R.floor('R-OPTAB calls of the wrapper model', n, 100)
+r_autoref_apply.NAME = 'R-OPTAB(autoref wrapper model)'
